@@ -131,7 +131,12 @@ func runProgram(t *rapid.T, httpLevel bool) {
 		if r.Burst > maxBurst {
 			maxBurst = r.Burst
 		}
-		if d := time.Duration(r.Burst) * ceilTau(r); d > maxIdle {
+		// burst x (period/average), the product rounded up once (not per token)
+		d := time.Duration(r.Burst) * ceilTau(r) // fallback when the exact product would overflow
+		if r.Burst < (1<<62)/int64(r.Period) {
+			d = time.Duration((r.Burst*int64(r.Period) + r.Average - 1) / r.Average)
+		}
+		if d > maxIdle {
 			maxIdle = d
 		}
 		if r.Period > longest.Period {
